@@ -1,6 +1,8 @@
 """C14 — runners validate requests, deliver enough shots and count their work correctly."""
+import collections.abc
 import gc
 import itertools
+import pathlib
 import json
 import os
 import tempfile
@@ -29,6 +31,15 @@ RULE = ("seeded random call histories (single / batch / distribution calls, vali
         "around round numbers on every chain kind, a long count list wrong in ONE place, sample counts up to 65537 "
         "(thorough 131073), histories of ~300 (thorough ~1050) mixed calls and of ~300 (thorough ~1100) equal-kind calls in a row, registers of 9..12 qubits on simulators and up "
         "to 69 on a base runner, circuits of up to 260 (thorough 520) operations / segments, 3 and 4 nested trackers.  "
+        "Round 4: two more runner kinds – a BaseCircuitRunner subclass with a dedicated _run_batch_and_measure that "
+        "keeps the counters itself (oracle only: the Lean model has the default batch route) and a simulator whose "
+        "native set is a set of gate names (model-compared: the per-operation native flags are sent with the circuit); "
+        "gates Z, controlled X/Z/H (all named 'Control'), dagger and power gates; `edit` steps (one operation replaced "
+        "in place: same object, same length); `reuse_args` histories (the caller keeps ONE circuits list and ONE counts "
+        "list and rewrites them between calls); batches as user-defined Sequence objects; keyword-argument and "
+        "omitted-default forms of the calls; tracker file name as pathlib.Path, record_bitstrings True/False/None/"
+        "omitted; get_wavefunction / get_exact_expectation_values steps on bare simulators (counters answered by the "
+        "model as an exact-distribution request).  "
         "non-trivial: a history with >=1 rejected and >=1 accepted call and >=2 call kinds; "
         "distinct = distinct canonical JSON of the case")
 TRUSTED = [
@@ -49,7 +60,10 @@ ASSUMPTIONS = [
     "construction, does not change); the model sees every content version of a circuit as its own label",
     "sample counts are Python ints (numpy integers make run_batch_and_measure raise TypeError on len())",
     "the harness BaseCircuitRunner subclass refuses circuits with free symbols with ValueError, like the simulators",
-    "batches and per-circuit counts are passed as lists or tuples (the API says Sequence); in `poison` histories the "
+    "batches and per-circuit counts are passed as lists, tuples or a collections.abc.Sequence subclass (the API says "
+    "Sequence); an `edit` step replaces one element of circuit.operations in place by a gate on the same qubits; the "
+    "dedicated-batch harness runner counts a completed non-empty batch as len(batch) circuits and ONE job and an empty "
+    "or failed batch as nothing – the base class is expected to add nothing on that route; in `poison` histories the "
     "caller edits the objects it got back and the lists it passed only AFTER the call returned and after everything "
     "was observed (a correct runner cannot notice)",
     "sizes explored per run are bounded by the SCALE stream of RULE (e.g. batches <= 1100 circuits quick / 4200 "
@@ -118,8 +132,61 @@ def _classes():
                 state = op.apply(state)
             return state
 
-    _CLASSES.update(HarnessRunner=HarnessRunner, DefaultNativeSimulator=DefaultNativeSimulator)
+    class DedicatedBatchRunner(HarnessRunner):
+        """a BaseCircuitRunner subclass with a dedicated way of running a batch (the documented extension point
+        `_run_batch_and_measure`): the whole non-empty batch is ONE job; it keeps the counters itself, as the base class
+        leaves them alone on this route"""
+
+        def _run_batch_and_measure(self, batch, samples_per_circuit):
+            results = [self._run_and_measure(circuit, n) for circuit, n in zip(batch, samples_per_circuit)]
+            if results:
+                self._n_circuits_executed += len(results)
+                self._n_jobs_executed += 1
+            return results
+
+    class NameNativeSimulator(DefaultNativeSimulator):
+        """a BaseWavefunctionSimulator whose native gate set is a set of gate names (everything else, gates included,
+        is applied operation by operation)"""
+
+        def __init__(self, native, seed=None):
+            super().__init__(seed=seed)
+            self._native = frozenset(native)
+
+        def is_natively_supported(self, operation):
+            return isinstance(operation, m["C"].GateOperation) and operation.gate.name in self._native
+
+    class UserSeq(collections.abc.Sequence):
+        """a caller's own Sequence type (the API promises Sequence, not list)"""
+
+        def __init__(self, items):
+            self._items = list(items)
+
+        def __getitem__(self, i):
+            if isinstance(i, slice):
+                return UserSeq(self._items[i])
+            return self._items[i]
+
+        def __len__(self):
+            return len(self._items)
+
+    _CLASSES.update(HarnessRunner=HarnessRunner, DefaultNativeSimulator=DefaultNativeSimulator,
+                    DedicatedBatchRunner=DedicatedBatchRunner, NameNativeSimulator=NameNativeSimulator, UserSeq=UserSeq)
     return _CLASSES
+
+
+# the library's gate.name of every spec operation (used by the name-native simulator kind; checked on the clean tree by
+# the counters of every run)
+_GATE_NAME = {"H": "H", "X": "X", "Z": "Z", "CNOT": "CNOT", "RX": "RX", "RXS": "RX", "RXB": "RX", "CTL": "Control",
+              "DAG": "RX_Dagger", "POW": "RX^2"}
+
+
+def _native_flags(leaf_spec, circ_spec):
+    """is_natively_supported of the leaf simulator on every operation of the circuit, from the specs"""
+    if leaf_spec.get("all_native"):
+        return [True for _ in circ_spec["ops"]]
+    if "native" in leaf_spec:
+        return [op[0] != "MP" and _GATE_NAME[op[0]] in leaf_spec["native"] for op in circ_spec["ops"]]
+    return [op[0] != "MP" for op in circ_spec["ops"]]
 
 
 def _width(spec):
@@ -127,10 +194,12 @@ def _width(spec):
     return max([spec.get("n") or 0] + used)
 
 
-def _abstract(spec):
-    """what the model sees of a circuit – computed from the spec, not from the Circuit object"""
-    return {"width": _width(spec), "ops": [op[0] != "MP" for op in spec["ops"]],
-            "symbolic": any(op[0] == "RXS" for op in spec["ops"])}
+def _abstract(spec, leaf=None):
+    """what the model sees of a circuit – computed from the spec, not from the Circuit object.  `ops` is the model's
+    "natively supported unless the simulator says everything is" flag of every operation: GateOperation-ness for the
+    default simulator, the name test for a name-native simulator (sent to the model as a not-all-native simulator)"""
+    flags = _native_flags(leaf, spec) if leaf is not None and "native" in leaf else [op[0] != "MP" for op in spec["ops"]]
+    return {"width": _width(spec), "ops": flags, "symbolic": any(op[0] == "RXS" for op in spec["ops"])}
 
 
 def _build_circuit(spec):
@@ -158,12 +227,19 @@ def _canon_dist(d):
     return {"items": sorted([_bits(k), float(v)] for k, v in d.distribution_dict.items()), "repr": repr(d)}
 
 
-def _spy(obj, name, kind, sink, canon):
+def _spy(obj, name, kind, sink, canon, depth):
+    """record what the public method returned to ITS CALLER (the wrapping tracker); calls the wrapped runner makes on
+    itself meanwhile (a batch running its circuits one by one, a distribution request sampling) are not the tracker's"""
     orig = getattr(obj, name)
 
     def wrapper(*a, **kw):
-        r = orig(*a, **kw)
-        sink.append([kind, canon(r)])
+        depth[0] += 1
+        try:
+            r = orig(*a, **kw)
+        finally:
+            depth[0] -= 1
+        if depth[0] == 0:
+            sink.append([kind, canon(r)])
         return r
 
     setattr(obj, name, wrapper)
@@ -174,9 +250,13 @@ def _build_runner(spec, td, log, labels, chain, spies):
     m, cls = _mods(), _classes()
     k = spec["kind"]
     if k == "base":
-        r = cls["HarnessRunner"](spec.get("extras", [0]), spec.get("seed", 1), log, labels)
+        r = cls["DedicatedBatchRunner" if spec.get("dedicated") else "HarnessRunner"](
+            spec.get("extras", [0]), spec.get("seed", 1), log, labels)
     elif k == "sim":
-        r = (m["SymbolicSimulator"] if spec["all_native"] else cls["DefaultNativeSimulator"])(seed=spec.get("seed", 1))
+        if "native" in spec:
+            r = cls["NameNativeSimulator"](spec["native"], seed=spec.get("seed", 1))
+        else:
+            r = (m["SymbolicSimulator"] if spec["all_native"] else cls["DefaultNativeSimulator"])(seed=spec.get("seed", 1))
         orig = r._run_and_measure
 
         def logged(circuit, n_samples):
@@ -190,11 +270,17 @@ def _build_runner(spec, td, log, labels, chain, spies):
         sub_chain = []
         inner = _build_runner(spec["inner"], td, log, labels, sub_chain, spies)
         sink = []
-        _spy(inner, "run_and_measure", "run", sink, _canon_meas)
-        _spy(inner, "run_batch_and_measure", "batch", sink, lambda ms: [_canon_meas(x) for x in ms])
-        _spy(inner, "get_measurement_outcome_distribution", "dist", sink, _canon_dist)
+        depth = [0]
+        _spy(inner, "run_and_measure", "run", sink, _canon_meas, depth)
+        _spy(inner, "run_batch_and_measure", "batch", sink, lambda ms: [_canon_meas(x) for x in ms], depth)
+        _spy(inner, "get_measurement_outcome_distribution", "dist", sink, _canon_dist, depth)
         fn = os.path.join(td, f"tracker{len(sub_chain)}.json")
-        r = m["Tracker"](inner, fn, spec["bits"])
+        if spec.get("path"):
+            fn = pathlib.Path(fn)               # any path-like the built-in open() takes
+        if spec["bits"] == "default":
+            r = m["Tracker"](inner, fn)         # record_bitstrings left at its default (False)
+        else:
+            r = m["Tracker"](inner, fn, spec["bits"])      # True / False / None (Optional[bool])
         chain.append(r)
         chain.extend(sub_chain)
         spies.insert(0, sink)
@@ -219,6 +305,14 @@ def _gate(op):
         return C.RX(float(unrat(op[2])))(op[1])
     if k == "RXS":
         return C.RX(sympy.Symbol("theta"))(op[1])
+    if k == "Z":
+        return C.Z(op[1])
+    if k == "CTL":      # every controlled gate is called "Control"; what it controls is in wrapped_gate
+        return getattr(C, op[3]).controlled(1)(op[1], op[2])
+    if k == "DAG":
+        return C.RX(float(unrat(op[2]))).dagger(op[1])
+    if k == "POW":
+        return C.RX(float(unrat(op[2]))).power(2)(op[1])
     if k == "RXB":      # a symbolic gate bound afterwards (`ansatz.bind(params)`): the parameter is a sympy number
         th = sympy.Symbol("theta")
         return C.RX(th)(op[1]).bind({th: float(unrat(op[2]))})
@@ -240,6 +334,14 @@ def _resolve(c):
             specs.append({"n": old.get("n"), "ops": list(old["ops"]) + [list(call["gate"])]})
             cur[i] = len(specs) - 1
             plan.append(("grow", i, call["gate"], cur[i]))
+        elif call["op"] == "edit":       # one operation REPLACED in place: same object, same length, other content
+            i = call["c"]
+            old = specs[cur[i]]
+            ops = [list(o) for o in old["ops"]]
+            ops[call["k"]] = list(call["gate"])
+            specs.append({"n": old.get("n"), "ops": ops})
+            cur[i] = len(specs) - 1
+            plan.append(("edit", i, call["k"], call["gate"], cur[i]))
         elif call["op"] == "batch":
             rc = dict(call)
             rc["cs"] = [cur[i] for i in call["cs"]]
@@ -261,22 +363,42 @@ def _poison_meas(meas):
     meas.bitstrings.append((1,) * 13)
 
 
-def _apply(runner, call, circuits, poison=False):
+def _apply(runner, call, circuits, poison=False, held=None):
     """one public call.  With `poison` the caller afterwards edits IN PLACE everything it owns: the returned
     Measurements / list / distribution and the lists it passed (a runner that keeps or hands out shared mutable objects
     is then observed on the later calls of the history)."""
     try:
+        kw = bool(call.get("kw"))       # the same request written with keyword arguments
+        if call["op"] == "wf":          # other public entry points of a simulator that run a circuit
+            return {"wf": len(runner.get_wavefunction(circuits[0]))}
+        if call["op"] == "ev":
+            ops_mod = __import__("orquestra.quantum.operators", fromlist=["PauliTerm"])
+            operator = ops_mod.PauliTerm("Z0") if circuits[0].n_qubits else ops_mod.PauliSum()
+            return {"ev": float(runner.get_exact_expectation_values(circuits[0], operator))}
         if call["op"] == "run":
-            r = runner.run_and_measure(circuits[0], call["n"])
+            r = (runner.run_and_measure(circuit=circuits[0], n_samples=call["n"]) if kw
+                 else runner.run_and_measure(circuits[0], call["n"]))
             out = {"meas": _canon_meas(r)}
             if poison:
                 _poison_meas(r)
             return out
         if call["op"] == "batch":
-            as_tuple = call.get("seq") == "tuple"
-            ns = (tuple(call["ns"]) if as_tuple else list(call["ns"])) if "ns" in call else call["n"]
-            cs = tuple(circuits) if as_tuple else list(circuits)
-            r = runner.run_batch_and_measure(cs, ns)
+            seq = call.get("seq", "list")
+            if seq == "list" and held is not None:
+                # the caller keeps ONE list of circuits and ONE list of counts for all its batch calls and rewrites
+                # their contents between calls (same objects, same id(), other – possibly now invalid – contents)
+                held["cs"][:] = circuits
+                cs = held["cs"]
+                if "ns" in call:
+                    held["ns"][:] = call["ns"]
+                    ns = held["ns"]
+                else:
+                    ns = call["n"]
+            else:
+                mk = {"list": list, "tuple": tuple, "userseq": _classes()["UserSeq"]}[seq]
+                ns = mk(call["ns"]) if "ns" in call else call["n"]
+                cs = mk(circuits)
+            r = runner.run_batch_and_measure(cs, n_samples=ns) if kw else runner.run_batch_and_measure(cs, ns)
             out = {"batch": [_canon_meas(x) for x in r]}
             if poison:
                 for x in r:
@@ -290,7 +412,12 @@ def _apply(runner, call, circuits, poison=False):
                     ns.clear()
             return out
         if call["op"] == "dist":
-            r = runner.get_measurement_outcome_distribution(circuits[0], call.get("n"))
+            if call.get("omit") and call.get("n") is None and isinstance(runner, _mods()["BaseWavefunctionSimulator"]):
+                r = runner.get_measurement_outcome_distribution(circuits[0])     # n_samples left at its default (None)
+            elif kw:
+                r = runner.get_measurement_outcome_distribution(circuit=circuits[0], n_samples=call.get("n"))
+            else:
+                r = runner.get_measurement_outcome_distribution(circuits[0], call.get("n"))
             out = {"dist": _canon_dist(r)}
             if poison:
                 r.distribution_dict.clear()
@@ -334,6 +461,7 @@ class _Session:
         self.steps = []
         self.circuits = []
         self.pos = 0
+        self.held = {"cs": [], "ns": []} if c.get("reuse_args") else None
 
     def done(self):
         return self.pos >= len(self.plan)
@@ -344,6 +472,9 @@ class _Session:
         c, specs, labels = self.c, self.specs, self.labels
         if item[0] == "grow":
             self.pool[item[1]].operations.append(_gate(item[2]))      # in place, on the object already submitted
+            return
+        if item[0] == "edit":
+            self.pool[item[1]].operations[item[2]] = _gate(item[3])   # in place: len(circuit.operations) unchanged
             return
         call, pool_idx = item[1], item[2]
         lbls = call["cs"] if call["op"] == "batch" else [call["c"]]
@@ -369,7 +500,7 @@ class _Session:
             self.ser[lb] = sr
         for sp in self.spies:
             del sp[:]
-        res = _apply(self.runner, call, circuits, poison=bool(c.get("poison")))
+        res = _apply(self.runner, call, circuits, poison=bool(c.get("poison")), held=self.held)
         files = []
         for t in self.trackers:
             if os.path.exists(t.raw_data_file_name):
@@ -445,35 +576,54 @@ def run_impl(c):
 
 
 # --------------------------------------------------------------------------- model side
+def _wants_bits(tracker_spec):
+    """record_bitstrings as given: True, or one of the falsy forms False / None / argument omitted"""
+    return tracker_spec["bits"] is True
+
+
 def _model_runner(spec):
     if spec["kind"] == "base":
         return {"kind": "base"}
     if spec["kind"] == "sim":
-        return {"kind": "sim", "all_native": spec["all_native"]}
-    return {"kind": "tracker", "bits": bool(spec["bits"]), "inner": _model_runner(spec["inner"])}
+        # a name-native simulator is, for the model, a simulator that does not declare everything native; which
+        # operations it supports is in the per-operation flags of the circuits (_abstract)
+        return {"kind": "sim", "all_native": bool(spec["all_native"]) and "native" not in spec}
+    return {"kind": "tracker", "bits": _wants_bits(spec), "inner": _model_runner(spec["inner"])}
+
+
+def _oracle_only(c):
+    """the Lean model has BaseCircuitRunner with the DEFAULT _run_batch_and_measure only; a subclass with a dedicated
+    batch implementation is checked by the oracle alone"""
+    return bool(_leaf_spec(c["runner"]).get("dedicated"))
 
 
 def _history_request(c, out):
     calls = []
     for call in _real_calls(c):
         cc = dict(call)
-        cc.pop("seq", None)
+        for k in ("seq", "kw", "omit"):
+            cc.pop(k, None)
+        if cc["op"] in ("wf", "ev"):
+            # get_wavefunction / get_exact_expectation_values do to the counters what an exact distribution request
+            # does (one get_wavefunction, nothing sampled); the model answers the counters, the value is not compared
+            cc = {"op": "dist", "c": cc["c"]}
         if cc["op"] == "dist" and cc.get("n") is None:
             cc.pop("n", None)
         calls.append(cc)
-    return ("history", {"runner": _model_runner(c["runner"]), "pool": [_abstract(s) for s in _resolve(c)[0]],
+    leaf = _leaf_spec(c["runner"])
+    return ("history", {"runner": _model_runner(c["runner"]), "pool": [_abstract(s, leaf) for s in _resolve(c)[0]],
                         "calls": calls, "tape": out["tape"]})
 
 
 def requests(c, out):
     k = c["kind"]
     if k == "history":
-        if "steps" not in out:
+        if "steps" not in out or _oracle_only(c):
             return []
         return [_history_request(c, out)]
     if k == "pair":
         # every chain of the pair is answered by the model of a runner that is ALONE
-        if "parts" not in out:
+        if "parts" not in out or any(_oracle_only(h) for h in c["hists"]):
             return []
         return [_history_request(h, o) for h, o in zip(c["hists"], out["parts"])]
     if k == "format":
@@ -545,7 +695,7 @@ def compare(c, out, resp):
         return "step count differs"
     for i, (ms, st, call) in enumerate(zip(r["steps"], out["steps"], _real_calls(c))):
         where = f"call #{i} {_show(call)}"
-        if not _res_matches(ms["res"], st["res"], call):
+        if call["op"] not in ("wf", "ev") and not _res_matches(ms["res"], st["res"], call):
             return f"{where}: result differs: impl {str(st['res'])[:200]} model {str(ms['res'])[:200]}"
         if ms["counters"] != st["counters"]:
             return f"{where}: counters (outermost first) impl {st['counters']} model {ms['counters']}"
@@ -579,6 +729,8 @@ def _show(call):
 
 def _invalid(call):
     """the invalid requests named by the property"""
+    if call["op"] in ("wf", "ev"):
+        return False
     if call["op"] == "run":
         return call["n"] <= 0
     if call["op"] == "dist":
@@ -592,7 +744,7 @@ def _leaf_work(leaf_spec, circ_spec):
     """(circuits, jobs) one executed circuit adds on a base-class runner – recomputed with itertools.groupby"""
     if leaf_spec["kind"] == "base":
         return 1, 1
-    flags = [bool(leaf_spec["all_native"]) or op[0] != "MP" for op in circ_spec["ops"]]
+    flags = _native_flags(leaf_spec, circ_spec)
     keys = [k for k, _ in itertools.groupby(flags)]
     return sum(1 for k in keys if k), len(keys)
 
@@ -601,6 +753,13 @@ def _leaf_spec(spec):
     while spec["kind"] == "tracker":
         spec = spec["inner"]
     return spec
+
+
+def _shots_of(e, w):
+    """the bitstrings one logged execution returned (a simulator's log holds them as basis-state numbers)"""
+    if "shots" in e:
+        return e["shots"]
+    return [[(i >> (w - 1 - q)) & 1 for q in range(w)] for i in e["draws"]]
 
 
 def _shape_fail(shots, n, spec, what):
@@ -659,7 +818,17 @@ def _oracle_history(c, out):
         for (a, b), (a0, b0) in zip(counters, prev_counters):
             if a < a0 or b < b0:
                 fails.append(("counter-decreased", f"{where}: counters went from {prev_counters} to {counters}"))
-        if _invalid(call):
+        if call["op"] in ("wf", "ev"):
+            # any call that runs a circuit on a simulator counts its segments, also outside the three measuring calls
+            sp = all_specs[call["c"]]
+            wc, wj = _leaf_work(leaf, sp)
+            d = [counters[-1][0] - prev_counters[-1][0], counters[-1][1] - prev_counters[-1][1]]
+            if isinstance(res, str):
+                fails.append(("valid-request-failed", f"{where}: raised {res}"))
+            elif d != [wc, wj]:
+                fails.append(("counter-increment", f"{where}: {out['classes'][-1]} ran {wc} circuit(s) in {wj} job(s), "
+                                                   f"counters grew by {d}"))
+        elif _invalid(call):
             empty_scalar = call["op"] == "batch" and "ns" not in call and not call["cs"]
             if res != "err:value":
                 fails.append(("empty-batch-nonpositive-count-accepted" if empty_scalar else "invalid-request-accepted",
@@ -682,6 +851,8 @@ def _oracle_history(c, out):
             if leaf["kind"] == "base":
                 ran = sum(1 for e in executed if "shots" in e)
                 d = [counters[-1][0] - prev_counters[-1][0], counters[-1][1] - prev_counters[-1][1]]
+                if leaf.get("dedicated") and call["op"] == "batch":
+                    ran = 0          # the dedicated batch implementation counts a batch only when it completed
                 if d != [ran, ran]:
                     fails.append(("counter-increment", f"{where}: {ran} circuit(s) ran before the failure, counters grew by {d}"))
         else:
@@ -690,6 +861,8 @@ def _oracle_history(c, out):
             # base-class runner / simulator counters grow by exactly the work done
             wc = sum(_leaf_work(leaf, sp)[0] for sp in specs)
             wj = sum(_leaf_work(leaf, sp)[1] for sp in specs)
+            if leaf.get("dedicated") and call["op"] == "batch":
+                wj = 1 if cs else 0     # the subclass runs a non-empty batch as ONE job; the base class adds nothing
             d = [counters[-1][0] - prev_counters[-1][0], counters[-1][1] - prev_counters[-1][1]]
             if d != [wc, wj]:
                 fails.append(("counter-increment", f"{where}: {out['classes'][-1]} ran {wc} circuit(s) in {wj} job(s), "
@@ -728,20 +901,29 @@ def _oracle_history(c, out):
                         f = _shape_fail(shots, n, sp, f"{where} result {j}")
                         if f:
                             fails.append(f)
-                    # in order: the j-th result is what the j-th execution (of the j-th circuit) produced
-                    if len(executed) == len(cs):
-                        for j, (e, shots) in enumerate(zip(executed, res["batch"])):
-                            if e["c"] != cs[j] or e["n"] != ns[j]:
-                                fails.append(("result-order", f"{where}: execution {j} was for circuit {e['c']} with {e['n']} "
-                                                              f"shots, expected circuit {cs[j]} with {ns[j]}"))
-                            elif "shots" in e and e["shots"] != shots:
-                                fails.append(("result-order", f"{where}: result {j} is not what execution {j} returned"))
+                    # in order: result j is what an execution OF CIRCUIT j produced (the runner may execute in any order;
+                    # what it may not do is hand circuit k's shots out as circuit j's result)
+                    if len(executed) == len(cs) and all(("shots" in e) or ("draws" in e) for e in executed):
+                        ran = Counter((e["c"], json.dumps(_shots_of(e, _width(all_specs[e["c"]]) if 0 <= e["c"] < len(all_specs) else 0)))
+                                      for e in executed)
+                        got = Counter((cs[j], json.dumps(shots)) for j, shots in enumerate(res["batch"]))
+                        if ran != got:
+                            odd = sorted((got - ran).keys())[:1] or sorted((ran - got).keys())[:1]
+                            fails.append(("result-order", f"{where}: the results are not the executions' outputs matched to "
+                                                          f"their circuits, e.g. circuit {odd[0][0]} / shots {odd[0][1][:80]}"))
             # trackers: pass-through and record
             for t in range(n_trackers):
                 kind = call["op"]
-                got = [r for k, r in st["inner_returns"][t] if k == kind]
                 mine = res[{"run": "meas", "batch": "batch", "dist": "dist"}[kind]]
-                if got != [mine]:
+                if kind == "dist":
+                    got = [r for k, r in st["inner_returns"][t] if k == "dist"]
+                    same = got == [mine]
+                else:
+                    # whatever route the tracker took into the wrapped runner (single runs or one batch): the measurements
+                    # it hands out are exactly the ones the wrapped runner returned, in that order
+                    got = [x for k, r in st["inner_returns"][t] if k in ("run", "batch") for x in ([r] if k == "run" else r)]
+                    same = got == ([mine] if kind == "run" else mine)
+                if not same:
                     fails.append(("tracker-passthrough", f"{where}: tracker {t} returned {str(mine)[:120]} but the wrapped "
                                                          f"runner returned {str(got)[:120]}"))
                 f = st["files"][t]
@@ -752,7 +934,7 @@ def _oracle_history(c, out):
                                                     f"record(s), the call must have written {want_n}"))
                     continue
                 recs = recs[len(recs) - want_n:]      # the records this call wrote are the last ones
-                bits = bool(tracker_specs[t]["bits"])
+                bits = _wants_bits(tracker_specs[t])
                 if kind == "dist":
                     rec = recs[0]
                     if (rec.get("data_type") != "measurement outcome distribution" or rec.get("circuit") != st["call_ser"][0]
@@ -907,6 +1089,29 @@ def corpus():
                          [{"op": "batch", "cs": [0], "n": 3}, {"op": "run", "c": 0, "n": 1}, {"op": "dist", "c": 0, "n": None},
                           {"op": "batch", "cs": [0, 0], "ns": [1]}])],
          "order": [0, 1, 1, 0, 0, 1, 0, 1]},
+        # a subclass with a dedicated _run_batch_and_measure that keeps the counters itself (a non-empty batch = one job):
+        # the base class must add nothing on that route, reject before it, and still count single runs (oracle only)
+        _hist({"kind": "tracker", "bits": None, "path": True, "inner": {"kind": "base", "dedicated": True, "extras": [1], "seed": 4}},
+              [bell, symb, EMPTY],
+              [{"op": "batch", "cs": [0, 2, 0], "ns": [1, 2, 1]}, {"op": "batch", "cs": [], "ns": []}, {"op": "batch", "cs": [0], "ns": [0]},
+               {"op": "batch", "cs": [0, 1], "n": 2}, {"op": "run", "c": 0, "n": 1}, {"op": "batch", "cs": [], "n": 0},
+               {"op": "dist", "c": 2, "n": 2}, {"op": "batch", "cs": [2], "n": 3, "seq": "userseq"}]),
+        # a simulator whose native set is {X, CNOT}: H and RX are gates, yet non-native (own segments, jobs without circuits)
+        _hist({"kind": "sim", "all_native": False, "native": ["CNOT", "X"], "seed": 2},
+              [{"n": 2, "ops": [["H", 0], ["X", 1], ["CNOT", 0, 1], ["RX", 0, "1/2"], ["H", 1], ["X", 0]]}, {"n": 2, "ops": [["H", 0]]},
+               {"n": 2, "ops": [["X", 0], ["MP"], ["H", 1]]}],
+              [{"op": "run", "c": 0, "n": 2}, {"op": "batch", "cs": [1, 0, 2], "n": 1}, {"op": "dist", "c": 2, "n": None},
+               {"op": "dist", "c": 1, "n": 0}]),
+        # one operation REPLACED in place between calls (same object, same number of operations), controlled gates that
+        # share the name "Control", record_bitstrings omitted, the caller's ONE count list rewritten between calls
+        dict(_hist({"kind": "tracker", "bits": "default", "inner": base},
+                   [{"n": 2, "ops": [["CTL", 0, 1, "X"], ["RX", 0, "3/4"]]}, {"n": 2, "ops": [["CTL", 0, 1, "Z"], ["RX", 0, "3/4"]]}],
+                   [{"op": "batch", "cs": [0, 1], "ns": [2, 1]}, {"op": "edit", "c": 0, "k": 1, "gate": ["RX", 0, "1/2"]},
+                    {"op": "batch", "cs": [0, 1], "ns": [2, 1]}, {"op": "edit", "c": 1, "k": 0, "gate": ["CTL", 1, 0, "Z"]},
+                    {"op": "batch", "cs": [0, 1], "ns": [2, 0]}, {"op": "batch", "cs": [1, 0], "ns": [2, 1]},
+                    {"op": "run", "c": 1, "n": 1}, {"op": "edit", "c": 1, "k": 1, "gate": ["DAG", 0, "3/4"]}, {"op": "run", "c": 1, "n": 1},
+                    {"op": "dist", "c": 1, "n": 2}]),
+             reuse_args=True),
         {"kind": "format", "i": 0, "n": 0},
         {"kind": "outcome", "n": 0},
         {"kind": "segments", "flags": [True, False, False, True]},
@@ -930,10 +1135,15 @@ def _gen_circuit(rng, maxw, allow_mp, allow_sym):
         elif k < 0.55 and w >= 2:
             a, b = rng.sample(range(w), 2)
             ops.append(["CNOT", a, b])
-        elif k < 0.7:
+        elif k < 0.62 and w >= 2:
+            a, b = rng.sample(range(w), 2)
+            ops.append(["CTL", a, b, rng.choice(["X", "Z", "H"])])      # all of them are gates named "Control"
+        elif k < 0.74:
             ops.append(["RX", rng.randrange(w), rng.choice(["1/2", "3/4", "-5/4", "2"])])
+        elif k < 0.8:
+            ops.append([rng.choice(["DAG", "POW"]), rng.randrange(w), rng.choice(["1/2", "3/4", "-5/4", "2"])])
         else:
-            ops.append([rng.choice(["H", "X"]), rng.randrange(w)])
+            ops.append([rng.choice(["H", "X", "Z"]), rng.randrange(w)])
     if all(op[0] == "MP" for op in ops):
         ops.append(["X", rng.randrange(w)])
     n = w + rng.randrange(0, 2) if rng.random() < 0.5 else None     # declared width, possibly with idle qubits
@@ -978,17 +1188,31 @@ def _gen_runner(rng):
     if k < 0.3:
         leaf = {"kind": "base", "extras": [rng.randrange(0, 3) for _ in range(rng.randrange(1, 4))],
                 "seed": rng.randrange(1, 2 ** 20)}
-    elif k < 0.65:
+        if rng.random() < 0.3:
+            leaf["dedicated"] = True          # a subclass with its own _run_batch_and_measure (oracle only)
+    elif k < 0.6:
         leaf = {"kind": "sim", "all_native": True, "seed": rng.randrange(2 ** 20)}
-    else:
+    elif k < 0.85:
         leaf = {"kind": "sim", "all_native": False, "seed": rng.randrange(2 ** 20)}
+    else:                                     # native = a set of gate names: gates, too, can be non-native
+        names = sorted(set(_GATE_NAME.values()))
+        leaf = {"kind": "sim", "all_native": False, "seed": rng.randrange(2 ** 20),
+                "native": sorted(rng.sample(names, rng.randrange(1, len(names))))}
     r = rng.random()
     if r < 0.45:
         return leaf
-    t = {"kind": "tracker", "bits": rng.random() < 0.5, "inner": leaf}
+    t = _gen_tracker(rng, leaf)
     if r < 0.9:
         return t
-    return {"kind": "tracker", "bits": rng.random() < 0.5, "inner": t}
+    return _gen_tracker(rng, t)
+
+
+def _gen_tracker(rng, inner):
+    """record_bitstrings in every form the signature allows (True / False / None / omitted), file name as str or path"""
+    t = {"kind": "tracker", "bits": rng.choice([True, True, True, False, False, None, "default"]), "inner": inner}
+    if rng.random() < 0.3:
+        t["path"] = True
+    return t
 
 
 def _gen_grow(rng, pool):
@@ -1010,13 +1234,23 @@ def _gen_grow(rng, pool):
 
 def _variant(rng, spec):
     """a circuit of the same width and length that differs from `spec` in exactly one operation (or None)"""
-    idx = [i for i, op in enumerate(spec["ops"]) if op[0] in ("H", "X", "RX", "RXB")]
+    idx = [i for i, op in enumerate(spec["ops"]) if op[0] in ("H", "X", "Z", "RX", "RXB", "CTL", "DAG", "POW")]
     if not idx:
         return None
     i = rng.choice(idx)
     op = list(spec["ops"][i])
-    if op[0] in ("H", "X"):
-        op[0] = "X" if op[0] == "H" else "H"
+    if op[0] in ("H", "X", "Z"):
+        op[0] = rng.choice([g for g in ("H", "X", "Z") if g != op[0]])
+    elif op[0] == "CTL":                 # same gate name "Control", same qubits: only the wrapped gate differs,
+        if rng.random() < 0.6:           # or the same qubit SET in the other order
+            op[3] = rng.choice([g for g in ("X", "Z", "H") if g != op[3]])
+        else:
+            op[1], op[2] = op[2], op[1]
+    elif op[0] in ("DAG", "POW"):
+        if rng.random() < 0.5:
+            op[2] = rng.choice([a for a in ["1/2", "3/4", "-5/4", "2"] if a != op[2]])
+        else:
+            op[0] = "RX"
     elif rng.random() < 0.5:
         op[2] = rng.choice([a for a in ["1/2", "3/4", "-5/4", "2"] if a != op[2]])
     else:
@@ -1032,7 +1266,7 @@ def _sibling(rng, prev, npool):
     request through another entry point"""
     call = json.loads(json.dumps(prev))
     r = rng.random()
-    if r < 0.25:
+    if r < 0.25 or call["op"] in ("wf", "ev"):
         return call                                           # the very same request again
     if call["op"] in ("run", "dist"):
         if r < 0.5 and call.get("n") is not None:
@@ -1063,10 +1297,7 @@ def _sibling(rng, prev, npool):
         elif call["ns"] and len(set(call["ns"])) == 1 and len(call["ns"]) == len(cs):
             call["n"] = call.pop("ns")[0]
     else:
-        if call.get("seq") == "tuple":
-            call.pop("seq")
-        else:
-            call["seq"] = "tuple"
+        call["seq"] = rng.choice([q for q in ("list", "tuple", "userseq") if q != call.get("seq", "list")])
     return call
 
 
@@ -1105,12 +1336,28 @@ def _gen_history(rng, maxw, maxn, maxbatch, maxlen, runner=None, n_calls=None, e
                 view[g["c"]] = {"n": view[g["c"]].get("n"), "ops": view[g["c"]]["ops"] + [g["gate"]]}
                 calls.append(g)
                 continue
+        if not ephemeral and rng.random() < 0.1:
+            i = rng.randrange(len(view))
+            v = _variant(rng, view[i])
+            if v is not None:       # one operation of a circuit that was already submitted is REPLACED in place
+                k = [j for j, (a, b) in enumerate(zip(view[i]["ops"], v["ops"])) if a != b][0]
+                view[i] = v
+                calls.append({"op": "edit", "c": i, "k": k, "gate": v["ops"][k]})
+                continue
         if prev is not None and rng.random() < 0.3:
             call = _sibling(rng, prev, len(pool))
         else:
             call = _gen_call(rng, len(pool), min(maxn, 6) if ephemeral else maxn, maxbatch)
-            if call["op"] == "batch" and rng.random() < 0.25:
-                call["seq"] = "tuple"
+            if call["op"] == "batch" and rng.random() < 0.35:
+                call["seq"] = rng.choice(["tuple", "userseq"])
+            if rng.random() < 0.2:
+                call["kw"] = True
+            if call["op"] == "dist" and call["n"] is None and rng.random() < 0.4:
+                call["omit"] = True
+            if runner["kind"] == "sim" and rng.random() < 0.1:
+                i = rng.randrange(len(pool))
+                numeric = not any(op[0] == "RXS" for op in view[i]["ops"])
+                call = {"op": "ev" if numeric and rng.random() < 0.5 else "wf", "c": i}
         calls.append(call)
         prev = call
     h = _hist(runner, pool, calls)
@@ -1119,6 +1366,8 @@ def _gen_history(rng, maxw, maxn, maxbatch, maxlen, runner=None, n_calls=None, e
         h["gc"] = rng.random() < 0.3
     if rng.random() < 0.35:
         h["poison"] = True
+    if rng.random() < 0.35:
+        h["reuse_args"] = True
     return h
 
 
@@ -1381,7 +1630,8 @@ def _gen_scale(rng, tier):
         cases.append(_gen_big_shots(rng, runner, counts))
     base, sym, dflt = _leaves(rng)
     # ---- long histories on one chain (thresholds on the number of calls / the running counters)
-    for runner in (_chain(base, 1), _chain(sym, 0), dflt):
+    longs = [_chain(base, 1), _chain(sym, 0), dflt]
+    for runner in longs if big else rng.sample(longs, 2):
         cases.append(_gen_history(rng, 3, 4, 3, 8, runner=runner, n_calls=rng.randrange(1000, 1100) if big else rng.randrange(260, 340),
                                   ephemeral=rng.random() < 0.4))
     base, sym, dflt = _leaves(rng)
@@ -1457,7 +1707,7 @@ def generate(rng, tier):
     for _ in range(200 if big else 40):
         cases.append({"kind": "segments", "flags": [rng.random() < 0.5 for _ in range(rng.randrange(0, 9))]})
     maxw, maxn, maxbatch = (5, 40, 6) if big else (3, 10, 4)
-    for _ in range(2600 if big else 500):
+    for _ in range(2600 if big else 420):
         cases.append(_gen_history(rng, maxw, maxn, maxbatch, 12 if big else 8))
     for _ in range(250 if big else 60):
         cases.append(_gen_pair(rng, maxw, maxn, maxbatch, 10 if big else 6))
@@ -1503,7 +1753,7 @@ def distribution(cases, outs):
     pairs = [(c, o) for c, o in zip(cases, outs) if c["kind"] == "pair" and isinstance(o, dict) and "parts" in o]
     for c, o in pairs:
         hs.extend(zip(c["hists"], o["parts"]))
-    all_calls = [call for c, _ in hs for call in c["calls"] if call["op"] != "grow"]
+    all_calls = [call for c, _ in hs for call in c["calls"] if call["op"] not in ("grow", "edit")]
     calls = Counter()
     results = Counter()
     runners = Counter()
@@ -1514,7 +1764,8 @@ def distribution(cases, outs):
         while s["kind"] == "tracker":
             names.append("tracker")
             s = s["inner"]
-        names.append("base" if s["kind"] == "base" else ("symbolic-sim" if s["all_native"] else "default-native-sim"))
+        names.append(("base-dedicated-batch" if s.get("dedicated") else "base") if s["kind"] == "base" else
+                     ("symbolic-sim" if s["all_native"] else ("name-native-sim" if "native" in s else "default-native-sim")))
         runners[">".join(names)] += 1
         for sp in _resolve(c)[0]:
             w = _width(sp)
@@ -1539,5 +1790,9 @@ def distribution(cases, outs):
             "max_operations_in_a_circuit": max((len(sp["ops"]) for c, _ in hs for sp in _resolve(c)[0]), default=0),
             "max_tracker_nesting": max((o["classes"].count("MeasurementTrackingBackend") for _, o in hs), default=0),
             "ephemeral_histories": sum(1 for c, _ in hs if c.get("ephemeral")),
+            "edit_steps (operation replaced in place)": sum(1 for c, _ in hs for call in c["calls"] if call["op"] == "edit"),
+            "histories_reusing_one_argument_list_object": sum(1 for c, _ in hs if c.get("reuse_args")),
+            "oracle_only_histories (dedicated _run_batch_and_measure)": sum(1 for c, _ in hs if _oracle_only(c)),
+            "batches_passed_as_user_sequence": sum(1 for call in all_calls if call.get("seq") == "userseq"),
             "grow_steps": sum(1 for c, _ in hs for call in c["calls"] if call["op"] == "grow"),
             "max_history_length": max((len(c["calls"]) for c, _ in hs), default=0)}
